@@ -6,6 +6,8 @@ use std::time::Duration;
 pub(super) use crate::heartbeats::HeartbeatState;
 
 const MAX_MISSED_SERVER_HEARTBEATS: u32 = 2;
+#[cfg(amiquip_verif)]
+pub(super) const VERIF_MAX_MISSED_SERVER_HEARTBEATS: u32 = MAX_MISSED_SERVER_HEARTBEATS;
 
 #[derive(Debug, Clone, Copy, PartialEq)]
 pub(super) enum HeartbeatKind {
@@ -57,6 +59,13 @@ impl HeartbeatTimers {
             "heartbeat timer started multiple times"
         );
         self.heartbeats = Some(RxTxHeartbeat::new(&mut self.timer, interval));
+    }
+
+    #[cfg(amiquip_verif)]
+    pub(super) fn verif_intervals(&self) -> Option<(Duration, Duration)> {
+        self.heartbeats
+            .as_ref()
+            .map(|hb| (hb.rx.verif_interval(), hb.tx.verif_interval()))
     }
 
     pub(super) fn fire_rx(&mut self) -> HeartbeatState {
